@@ -257,6 +257,20 @@ func c12Run(o *Out, kind string, via int, scrape bool, pre, post []hkSpec, baseS
 // overlap (UDP announces only): another client's accepted announce (another swarm; the configured hooks let it pass) is
 // answered first and its post-response processing is still pending while the measured request is handled.
 func c12RunO(o *Out, kind string, via int, scrape bool, pre, post []hkSpec, baseSec int64, overlap bool) {
+	c12RunV(o, kind, via, scrape, pre, post, baseSec, overlap, 0, 0)
+}
+
+// c12RunV: the measured announce carries event ev (0 none, 1 started, 2 stopped, 3 completed) and its peer is already a
+// member of the swarm (member 1: seeder, 2: leecher).  Only used with chains whose pre-hooks REJECT: whatever the request
+// asks for - leaving included - a rejected request must not touch the store.
+func c12RunV(o *Out, kind string, via int, scrape bool, pre, post []hkSpec, baseSec int64, overlap bool, ev, member int) {
+	rejecting := false
+	for _, h := range pre {
+		rejecting = rejecting || h.K == "rejc" || h.K == "reji"
+	}
+	if !rejecting || scrape {
+		ev, member = 0, 0
+	}
 	overlap = overlap && via == 2 && !scrape
 	timecache.VerifPin(c12Now)
 	lg := &c12Log{}
@@ -292,8 +306,17 @@ func c12RunO(o *Out, kind string, via int, scrape bool, pre, post []hkSpec, base
 		}
 		return
 	}
-	before := countIH()
 	me := bittorrent.Peer{ID: bittorrent.PeerIDFromBytes([]byte("announcer-0123456789")), Port: 6881, IP: bittorrent.IP{IP: net.IP{127, 0, 0, 1}, AddressFamily: bittorrent.IPv4}}
+	if via == 1 {
+		me.IP.IP = net.IP{192, 0, 2, 1} // httptest.NewRequest's RemoteAddr
+	}
+	switch member {
+	case 1:
+		_ = real.PutSeeder(c12IH, me)
+	case 2:
+		_ = real.PutLeecher(c12IH, me)
+	}
+	before := countIH()
 
 	oErr, oMsg, oInterval, oFilled, oDisclosed := int64(0), "", int64(0), false, false
 	setErr := func(msg string, internalTexts ...string) {
@@ -307,7 +330,8 @@ func c12RunO(o *Out, kind string, via int, scrape bool, pre, post []hkSpec, base
 	switch via {
 	case 0:
 		if !scrape {
-			req := &bittorrent.AnnounceRequest{InfoHash: c12IH, Peer: me, Left: 10, NumWant: 50, NumWantProvided: true}
+			req := &bittorrent.AnnounceRequest{InfoHash: c12IH, Peer: me, Left: 10, NumWant: 50, NumWantProvided: true,
+				Event: []bittorrent.Event{bittorrent.None, bittorrent.Started, bittorrent.Stopped, bittorrent.Completed}[ev], EventProvided: ev != 0}
 			ctx, resp, err := logic.HandleAnnounce(context.Background(), req)
 			if err != nil {
 				var ce bittorrent.ClientError
@@ -343,7 +367,8 @@ func c12RunO(o *Out, kind string, via int, scrape bool, pre, post []hkSpec, base
 	case 1:
 		h, hstop := httpfe.VerifHandler(logic, httpfe.Config{Addr: "127.0.0.1:0", AnnounceRoutes: []string{"/announce"}, ScrapeRoutes: []string{"/scrape"}})
 		defer hstop()
-		uri := "/announce?info_hash=" + url.QueryEscape(string(c12IH[:])) + "&peer_id=announcer-0123456789&port=6881&left=10&downloaded=0&uploaded=0&compact=1&numwant=50"
+		uri := "/announce?info_hash=" + url.QueryEscape(string(c12IH[:])) + "&peer_id=announcer-0123456789&port=6881&left=10&downloaded=0&uploaded=0&compact=1&numwant=50" +
+			[]string{"", "&event=started", "&event=stopped", "&event=completed"}[ev]
 		if scrape {
 			uri = "/scrape?info_hash=" + url.QueryEscape(string(c12IH[:]))
 		}
@@ -417,7 +442,7 @@ func c12RunO(o *Out, kind string, via int, scrape bool, pre, post []hkSpec, base
 			binary.Write(&pkt, binary.BigEndian, uint64(0))
 			binary.Write(&pkt, binary.BigEndian, uint64(10))
 			binary.Write(&pkt, binary.BigEndian, uint64(0))
-			binary.Write(&pkt, binary.BigEndian, uint32(0))
+			binary.Write(&pkt, binary.BigEndian, []uint32{0, 2, 3, 1}[ev]) // BEP 15 event codes
 			pkt.Write([]byte{0, 0, 0, 0})
 			binary.Write(&pkt, binary.BigEndian, uint32(0))
 			binary.Write(&pkt, binary.BigEndian, uint32(50))
@@ -481,14 +506,18 @@ func c12RunO(o *Out, kind string, via int, scrape bool, pre, post []hkSpec, base
 	for _, s := range post {
 		cq = append(cq, s.coq())
 	}
-	coq := fmt.Sprintf("CChain %d %s %s %s %d %d %s %s %s %s %d %s", via, cBool(scrape), cList(cp), cList(cq), baseSec,
-		oErr, cB([]byte(oMsg)), cList(tr), cZ(oInterval), cBool(oFilled), applied, cBool(oDisclosed))
+	coq := fmt.Sprintf("CChain %d %s %s %s %d %d %s %s %s %s %s %s", via, cBool(scrape), cList(cp), cList(cq), baseSec,
+		oErr, cB([]byte(oMsg)), cList(tr), cZ(oInterval), cBool(oFilled), cZ(applied), cBool(oDisclosed))
 	o.add(Case{Coq: coq, Kind: kind,
-		In:  map[string]interface{}{"via": via, "scrape": scrape, "pre": pre, "post": post, "base": baseSec, "overlap": overlap},
+		In:  map[string]interface{}{"via": via, "scrape": scrape, "pre": pre, "post": post, "base": baseSec, "overlap": overlap, "ev": ev, "member": member},
 		Obs: map[string]interface{}{"err": oErr, "msg": oMsg, "trace": evs, "interval": oInterval, "filled": oFilled, "applied": applied, "disclosed": oDisclosed}})
 }
 
 func c12Replay(o *Out, in map[string]interface{}) error {
+	if jStr(in["t"]) == "backlog" {
+		c12Backlog(o, "replay", int(jInt(in["via"])), int(jInt(in["n"])))
+		return nil
+	}
 	var pre, post []hkSpec
 	if err := reJSON(in["pre"], &pre); err != nil {
 		return err
@@ -496,7 +525,7 @@ func c12Replay(o *Out, in map[string]interface{}) error {
 	if err := reJSON(in["post"], &post); err != nil {
 		return err
 	}
-	c12RunO(o, "replay", int(jInt(in["via"])), jBool(in["scrape"]), pre, post, jInt(in["base"]), jBool(in["overlap"]))
+	c12RunV(o, "replay", int(jInt(in["via"])), jBool(in["scrape"]), pre, post, jInt(in["base"]), jBool(in["overlap"]), int(jInt(in["ev"])), int(jInt(in["member"])))
 	return nil
 }
 
@@ -543,13 +572,113 @@ func c12Stream(o *Out, rng *rand.Rand, n int) {
 		for _, sc := range []bool{false, true} {
 			for _, f := range fixed {
 				c12Run(o, "fixed", via, sc, f[0], f[1], 1800)
+				if !sc {
+					// a rejected request that asks to leave / to complete, from a peer that is a member
+					for ev := 1; ev < 4; ev++ {
+						c12RunV(o, "fixed-event", via, sc, f[0], f[1], 1800, false, ev, 1+(ev+via)%2)
+					}
+				}
 				if via == 2 && !sc {
 					c12RunO(o, "fixed-overlap", via, sc, f[0], f[1], 1800, true)
 				}
 			}
 		}
 	}
-	for i := 0; i < n; i++ {
-		c12RunO(o, "random", i%3, rng.Intn(4) == 0, gen(6, rng.Intn(3)), gen(4, 0), int64(rng.Intn(3600)+1), rng.Intn(3) == 0)
+	// many post-response runs outstanding at once
+	for via := 1; via < 3; via++ {
+		for _, k := range []int{3, 1500 + rng.Intn(700)} {
+			c12Backlog(o, "backlog", via, k)
+		}
+		if n >= 2000 {
+			c12Backlog(o, "backlog", via, 9000+rng.Intn(3000))
+		}
 	}
+	for i := 0; i < n; i++ {
+		c12RunV(o, "random", i%3, rng.Intn(4) == 0, gen(6, rng.Intn(3)), gen(4, 0), int64(rng.Intn(3600)+1), rng.Intn(3) == 0, rng.Intn(4), rng.Intn(3))
+	}
+}
+
+// ---- backlog: MANY accepted requests whose post-response processing is still pending at once (a post-hook that
+// blocks until released); after the release every one of them must have been applied to the swarm exactly once.
+// "Exactly once" must not depend on how many post-response runs are outstanding.
+
+type c12GateHook struct {
+	gate    chan struct{}
+	entered chan struct{}
+}
+
+func (g *c12GateHook) HandleAnnounce(ctx context.Context, _ *bittorrent.AnnounceRequest, _ *bittorrent.AnnounceResponse) (context.Context, error) {
+	select {
+	case g.entered <- struct{}{}:
+	default:
+	}
+	<-g.gate
+	return ctx, nil
+}
+func (g *c12GateHook) HandleScrape(ctx context.Context, _ *bittorrent.ScrapeRequest, _ *bittorrent.ScrapeResponse) (context.Context, error) {
+	return ctx, nil
+}
+
+func c12Backlog(o *Out, kind string, via, n int) {
+	timecache.VerifPin(c12Now)
+	huge := 1000 * time.Hour
+	real, err := memory.New(memory.Config{ShardCount: 4, GarbageCollectionInterval: huge, PrometheusReportingInterval: huge, PeerLifetime: huge})
+	if err != nil {
+		panic(err)
+	}
+	defer func() { <-real.Stop() }()
+	g := &c12GateHook{gate: make(chan struct{}), entered: make(chan struct{}, n+8)}
+	logic := middleware.NewLogic(middleware.ResponseConfig{AnnounceInterval: 30 * time.Minute, MinAnnounceInterval: time.Second}, real, nil, []middleware.Hook{g})
+	answered := 0
+	var stopFE func()
+	switch via {
+	case 1:
+		h, hstop := httpfe.VerifHandler(logic, httpfe.Config{Addr: "127.0.0.1:0", AnnounceRoutes: []string{"/announce"}, ScrapeRoutes: []string{"/scrape"}})
+		stopFE = hstop
+		for i := 0; i < n; i++ {
+			uri := "/announce?info_hash=" + url.QueryEscape(string(c12IH[:])) + fmt.Sprintf("&peer_id=backlog-%012d&port=%d&left=10&downloaded=0&uploaded=0&compact=1&numwant=0", i, 1024+i%60000)
+			r := httptest.NewRequest("GET", uri, nil)
+			w := httptest.NewRecorder()
+			h.ServeHTTP(w, r)
+			if w.Code == 200 && !bytes.Contains(w.Body.Bytes(), []byte("failure reason")) {
+				answered++
+			}
+		}
+	default:
+		f := udp.VerifNewOffline(logic, udp.Config{PrivateKey: c12Key, MaxClockSkew: time.Second})
+		stopFE = func() { <-f.Stop() }
+		src := net.IP{127, 0, 0, 1}
+		cid := udp.NewConnectionID(src, time.Unix(0, c12Now), c12Key)
+		for i := 0; i < n; i++ {
+			var pkt bytes.Buffer
+			pkt.Write(cid)
+			binary.Write(&pkt, binary.BigEndian, uint32(1))
+			pkt.Write([]byte{9, 9, byte(i >> 8), byte(i)})
+			pkt.Write(c12IH[:])
+			pkt.Write([]byte(fmt.Sprintf("backlog-%012d", i)))
+			binary.Write(&pkt, binary.BigEndian, uint64(0))
+			binary.Write(&pkt, binary.BigEndian, uint64(10))
+			binary.Write(&pkt, binary.BigEndian, uint64(0))
+			binary.Write(&pkt, binary.BigEndian, uint32(0))
+			pkt.Write([]byte{0, 0, 0, 0})
+			binary.Write(&pkt, binary.BigEndian, uint32(0))
+			binary.Write(&pkt, binary.BigEndian, uint32(0))
+			binary.Write(&pkt, binary.BigEndian, uint16(1024+i%60000))
+			dgs, _, pan, err := udp.VerifHandle(f, pkt.Bytes(), src)
+			if err == nil && pan == nil && len(dgs) == 1 && len(dgs[0]) >= 4 && binary.BigEndian.Uint32(dgs[0][:4]) == 1 {
+				answered++
+			}
+		}
+	}
+	close(g.gate)
+	stopFE() // waits for the post-response processing (fix F7)
+	applied := 0
+	for _, d := range memory.VerifDump(real) {
+		if d.InfoHash == c12IH && !d.Seeder {
+			applied++
+		}
+	}
+	o.add(Case{Kind: kind, Coq: fmt.Sprintf("CBacklog %d %d %d %d", via, n, answered, applied),
+		In:  map[string]interface{}{"t": "backlog", "via": via, "n": n},
+		Obs: map[string]interface{}{"answered": answered, "applied": applied}})
 }
